@@ -92,7 +92,7 @@ pub fn encode(n: &Node, out: &mut Vec<u8>) {
     }
 }
 
-pub const KINDS: [&str; 6] = ["to-indef", "to-def", "widen-head", "swap-map-entries", "chunk-string", "untag-258"];
+pub const KINDS: [&str; 7] = ["to-indef", "to-def", "widen-head", "swap-map-entries", "chunk-string", "untag-258", "inside-cbor-wrap"];
 
 fn widen(ai: u8, arg: &[u8]) -> Option<(u8, Vec<u8>)> {
     let v = val(ai, arg);
@@ -114,6 +114,10 @@ fn eligible(n: &Node, kind: usize) -> bool {
         (3, Node::Seq { major: 5, items, .. }) | (3, Node::SeqIndef { major: 5, items }) => items.len() >= 4,
         (4, Node::Str { major: 2, .. }) => true,
         (5, Node::Tag { ai, arg, .. }) => val(*ai, arg) == 258,
+        (6, Node::Tag { ai, arg, inner }) => val(*ai, arg) == 24 && match &**inner {
+            Node::Str { major: 2, payload, .. } => matches!(parse(payload, 0, 0), Some((_, e)) if e == payload.len()),
+            _ => false,
+        },
         _ => false,
     }
 }
@@ -154,6 +158,26 @@ fn apply(n: &mut Node, kind: usize, rng: &mut Rng) {
             Some(Node::StrIndef { major: *major, chunks })
         }
         (5, Node::Tag { inner, .. }) => Some((**inner).clone()),
+        (6, Node::Tag { ai, arg, inner }) => match &**inner {
+            Node::Str { major: 2, payload, .. } => {
+                // mutate the item wrapped in the byte string, keep the wrapping
+                let mut res = None;
+                if let Some((mut t, _)) = parse(payload, 0, 0) {
+                    for _ in 0..8 {
+                        let k = rng.below(6) as usize;
+                        if mutate(&mut t, k, rng) { break; }
+                    }
+                    let mut np = vec![];
+                    encode(&t, &mut np);
+                    if np != *payload {
+                        let (hai, harg) = min_head(np.len() as u64);
+                        res = Some(Node::Tag { ai: *ai, arg: arg.clone(), inner: Box::new(Node::Str { major: 2, ai: hai, arg: harg, payload: np }) });
+                    }
+                }
+                res
+            }
+            _ => None,
+        },
         _ => None,
     };
     if let Some(x) = new { *n = x; }
@@ -205,4 +229,58 @@ pub fn mutant(bytes: &[u8], rng: &mut Rng) -> Option<(Vec<u8>, Vec<&'static str>
     encode(&tree, &mut out);
     if out == bytes { return None; }
     Some((out, kinds))
+}
+
+/// every single-site mutant of `kind` (first `limit` sites, pre-order)
+pub fn single_site_mutants(bytes: &[u8], kind: usize, limit: usize, rng: &mut Rng) -> Vec<Vec<u8>> {
+    let Some((tree, end)) = parse(bytes, 0, 0) else { return vec![] };
+    if end != bytes.len() { return vec![]; }
+    let c = count(&tree, kind).min(limit);
+    let mut res = vec![];
+    for site in 0..c {
+        let mut t = tree.clone();
+        let mut target = site as isize;
+        apply_at(&mut t, kind, &mut target, rng);
+        let mut out = vec![];
+        encode(&t, &mut out);
+        if out != bytes { res.push(out); }
+    }
+    res
+}
+
+fn replace_at(n: &mut Node, target: &mut isize, payload: &[u8]) {
+    if *target < 0 { return; }
+    if eligible(n, 6) {
+        if *target == 0 {
+            *target = -1;
+            if let Node::Tag { inner, .. } = n {
+                let (ai, arg) = min_head(payload.len() as u64);
+                **inner = Node::Str { major: 2, ai, arg, payload: payload.to_vec() };
+            }
+            return;
+        }
+        *target -= 1;
+    }
+    match n {
+        Node::Seq { items, .. } | Node::SeqIndef { items, .. } => for i in items.iter_mut() { replace_at(i, target, payload); if *target < 0 { return; } },
+        Node::Tag { inner, .. } => replace_at(inner, target, payload),
+        _ => {}
+    }
+}
+
+/// number of `#6.24(bytes .cbor item)` sites
+pub fn wrap_sites(bytes: &[u8]) -> usize {
+    match parse(bytes, 0, 0) { Some((t, e)) if e == bytes.len() => count(&t, 6), _ => 0 }
+}
+
+/// replace the item wrapped at the `site`-th `#6.24(bytes)` by `payload`
+pub fn splice_wrapped(bytes: &[u8], site: usize, payload: &[u8]) -> Option<Vec<u8>> {
+    let (mut t, e) = parse(bytes, 0, 0)?;
+    if e != bytes.len() { return None; }
+    let mut target = site as isize;
+    replace_at(&mut t, &mut target, payload);
+    if target >= 0 { return None; }
+    let mut out = vec![];
+    encode(&t, &mut out);
+    Some(out)
 }
